@@ -107,6 +107,8 @@ def judge(kind, stream, exp, sess, o):
     bad = sorted(k for k in ("livelock", "watchdog", "busy_loop") if o.flags.get(k))
     if bad or o.end_reason != "quiescent":
         return [("hang", {"end": o.end_reason}, f"execution ended with {o.end_reason} {o.flags}")]
+    if o.flags.get("callbacks_overlap"):
+        return [("callbacks_concurrent", {}, f"a receive callback was started while another was still running ({o.flags['callbacks_overlap']} times)")]
     if sess.chunk_i < len(sess.chunks):
         return [("stream_not_consumed", {}, f"only {sess.chunk_i} of {len(sess.chunks)} chunks could be delivered (connection lost?) status {o.status}")]
     got = [v for _, v in o.received]
@@ -249,7 +251,62 @@ def _task_reconnect(args):
             for seg2 in ((), (7,), tuple(range(5, len(stream2), 5))):
                 drop = (lambda sess: (vloop.sp_eof(sess) or True)) if how == "eof" else (lambda sess: (vloop.sp_reset(sess) or True))
                 script = [it_connect, vloop.it_feed(first + victim[:j], 0), drop] + it_feed_conn(split(stream2, seg2), 1)
-                sess = vloop.Session(kind=kind, script=script)
+                for cbmode in ("ok", "slow"):
+                    sess = vloop.Session(kind=kind, script=script, recv_cb=cbmode)
+                    o = sess.run()
+                    stats["runs"] += 1
+                    stats["nontrivial"] += 1
+                    got = [v for _, v in o.received]
+                    stats["outcomes"].add(len(got))
+                    bad = sorted(k for k in ("livelock", "watchdog", "busy_loop") if o.flags.get(k))
+                    res = None
+                    if o.flags.get("callbacks_overlap"):
+                        res = ("callbacks_concurrent", {"second_consumer": True}, f"a receive callback was started while another was still running ({o.flags['callbacks_overlap']} times): "
+                               "messages are no longer handed over one after the other")
+                    elif bad or o.end_reason != "quiescent":
+                        res = ("hang", {"end": o.end_reason}, f"execution ended with {o.end_reason} {o.flags}")
+                    elif len(sess.gw.conns) < 2 or not o.flags.get("script_done"):
+                        res = ("stream_not_consumed", {}, f"second connection never fed: {len(sess.gw.conns)} connection(s), status {o.status}")
+                    elif got != exp1 + exp2:
+                        k = "messages_lost_after_reconnect" if len(got) < len(exp1 + exp2) else "duplicated_or_extra"
+                        res = (k, {"expected": len(exp1 + exp2), "got": len(got)},
+                               f"expected PGNs {[e[0] for e in exp1 + exp2]}, callback got {[g[0] for g in got]}")
+                    if res:
+                        vios.append({"kind": res[0], "facts": dict(res[1], client=kind, mechanism="state_survives_reconnect"),
+                                     "signature": f"reconnect:{res[0]}:{kind}:{how}",
+                                     "detail": f"[{kind} connection 0: one packet + {j} bytes of the next, then {how}; connection 1: clean stream cut at {list(seg2)[:4]}] {res[2]}",
+                                     "case": {"client": kind, "reconnect": True, "how": how, "j": j, "seg2": list(seg2)}})
+                    elif sample is None:
+                        sample = {"client": kind, "reconnect_after": f"{j} bytes of a packet then {how}", "delivered": len(got)}
+    stats["outcomes"] = len(stats["outcomes"])
+    return stats, vios[:40], sample
+
+
+def _task_eof_behind(args):
+    """the peer sends its last packets and closes at once: data and end-of-stream reach the client in the same loop iteration
+    (or the data in several reads with the end-of-stream right behind); everything that was sent is delivered"""
+    kind, = args
+    items = alphabet(kind)
+    vios = []
+    stats = {"runs": 0, "streams": 0, "nontrivial": 0, "outcomes": set()}
+    sample = None
+    names = ["A", "A2", "B1"] + (["B2"] if "B2" in items else []) + ["A"]
+    for count in (1, 2, len(names), 12):
+        seq = (names * 3)[:count] if count > len(names) else names[:count]
+        stream = b"".join(items[n] for n in seq)
+        exp = expected(kind, stream)
+        for cuts in ((), (len(stream) // 2,), tuple(range(7, len(stream), 7))):
+            for how in ("eof", "reset_after_eof"):
+                def last(sess, chunks=split(stream, cuts)):
+                    c = sess.gw.live_conn()
+                    if c is None:
+                        return False
+                    for ch in chunks:
+                        sess.env(c.transport.env_feed, ch)
+                    sess.env(c.transport.env_eof)
+                    c.eof_sent = True
+                    return True
+                sess = vloop.Session(kind=kind, script=[it_connect, last])
                 o = sess.run()
                 stats["runs"] += 1
                 stats["nontrivial"] += 1
@@ -259,21 +316,17 @@ def _task_reconnect(args):
                 res = None
                 if bad or o.end_reason != "quiescent":
                     res = ("hang", {"end": o.end_reason}, f"execution ended with {o.end_reason} {o.flags}")
-                elif len(sess.gw.conns) < 2 or not o.flags.get("script_done"):
-                    res = ("stream_not_consumed", {}, f"second connection never fed: {len(sess.gw.conns)} connection(s), status {o.status}")
-                elif got != exp1 + exp2:
-                    k = "messages_lost_after_reconnect" if len(got) < len(exp1 + exp2) else "duplicated_or_extra"
-                    res = (k, {"expected": len(exp1 + exp2), "got": len(got)},
-                           f"expected PGNs {[e[0] for e in exp1 + exp2]}, callback got {[g[0] for g in got]}")
+                elif got != exp:
+                    res = ("messages_lost_tail" if len(got) < len(exp) else "wrong_messages", {"expected": len(exp), "got": len(got), "mechanism": "eof_right_behind_data"},
+                           f"{len(exp)} messages sent, {len(got)} delivered")
                 if res:
-                    vios.append({"kind": res[0], "facts": dict(res[1], client=kind, mechanism="state_survives_reconnect"),
-                                 "signature": f"reconnect:{res[0]}:{kind}:{how}",
-                                 "detail": f"[{kind} connection 0: one packet + {j} bytes of the next, then {how}; connection 1: clean stream cut at {list(seg2)[:4]}] {res[2]}",
-                                 "case": {"client": kind, "reconnect": True, "how": how, "j": j, "seg2": list(seg2)}})
+                    vios.append({"kind": res[0], "facts": dict(res[1], client=kind), "signature": f"eofbehind:{res[0]}:{kind}",
+                                 "detail": f"[{kind} {len(seq)} packets in {len(cuts) + 1} read(s), end of stream right behind them] {res[2]}",
+                                 "case": {"client": kind, "eof_behind": True, "count": count, "cuts": list(cuts)}})
                 elif sample is None:
-                    sample = {"client": kind, "reconnect_after": f"{j} bytes of a packet then {how}", "delivered": len(got)}
+                    sample = {"client": kind, "packets_then_eof_in_one_iteration": len(seq), "delivered": len(got)}
     stats["outcomes"] = len(stats["outcomes"])
-    return stats, vios[:40], sample
+    return stats, vios[:20], sample
 
 
 def _task_swap(args):
@@ -332,6 +385,8 @@ def _task_swap(args):
 def _dispatch(t):
     if t[0] == "swap":
         return _task_swap(t[1:])
+    if t[0] == "eofbehind":
+        return _task_eof_behind(t[1:])
     if t[0] == "huge":
         return _task_huge(t[1:])
     if t[0] == "reconnect":
@@ -378,7 +433,7 @@ def plan(ctx):
 
 
 def run(ctx):
-    tasks = plan(ctx) + [("huge", "yd"), ("huge", "actisense")] + [("reconnect", k) for k in vloop.KINDS] + [("swap", k) for k in vloop.KINDS]
+    tasks = plan(ctx) + [("huge", "yd"), ("huge", "actisense")] + [("reconnect", k) for k in vloop.KINDS] + [("swap", k) for k in vloop.KINDS] + [("eofbehind", k) for k in vloop.KINDS]
     results = common.pmap(_dispatch, tasks)
     vios, samples = [], []
     runs = streams = nontriv = outcomes = 0
@@ -409,6 +464,9 @@ def run(ctx):
 def replay(ctx, rep):
     c = rep["case"]
     kind = c["client"]
+    if c.get("eof_behind"):
+        st, v, _ = _task_eof_behind((kind,))
+        return [x for x in v if x["case"]["count"] == c["count"] and x["case"]["cuts"] == c["cuts"]][:1]
     if c.get("swap"):
         st, v, _ = _task_swap((kind,))
         return [x for x in v if x["case"]["initial"] == c["initial"] and x["case"]["seg"] == c["seg"]][:1]
